@@ -1,2 +1,4 @@
+pub mod abi;
 pub mod boundgrid;
 pub mod clientgrid;
+pub mod segfiles;
